@@ -2,6 +2,7 @@
 that differ in PYTHONHASHSEED and heap layout, and on ONE Script a query repeated after other (also failing) queries
 gives what it gave the first time and what a fresh Script on the same text gives."""
 import glob
+import itertools
 import json
 import os
 import random
@@ -146,7 +147,14 @@ def sources(root):
                        q('goto', c, 'import fn', 8), q('help', c, 'import fn', 8), q('get_signatures', c, 'fn(\n', 3),
                        q('infer', c, 'only_c.value', 8), q('get_references', c, 'import fn', 8),
                        ['complete', c.count('\n') + 1, 9, {}], q('complete', c, 'import samename', 10)], files=files)
+    # deep but finite programs: answers that hit an inference limit, or fail with RecursionError, in between
+    for name, expr in [('paren%d' % n, '(' * n + '1' + ')' * n) for n in (296, 297, 298)] + [
+            ('minus297', '-' * 297 + '1'), ('list147', '[' * 147 + '1' + ']' * 147 + '[0]' * 147)]:
+        add(name, 'x = %s\ny = x\nz = y\n' % expr, [['infer', 1, 0, {}], ['infer', 2, 0, {}], ['infer', 3, 0, {}]])
+    c = 'a0 = 1\n' + ''.join('a%d = a%d\n' % (i, i - 1) for i in range(1, 200))
+    add('chain', c, [['infer', n + 1, 0, {}] for n in (199, 100, 60, 20)])
     return out
+
 
 
 def corpus(repo, rng, n_files, n_pos):
@@ -156,15 +164,13 @@ def corpus(repo, rng, n_files, n_pos):
     for path in sorted(rng.sample(sorted(glob.glob(os.path.join(d, '*.py'))), n_files)):
         with open(path, encoding='utf-8') as f:
             code = f.read()
-        lines = code.split('\n')
-        idents = [(li + 1, m.start(), m.end()) for li, l in enumerate(lines) if not l.lstrip().startswith('#')
-                  for m in re.finditer(r'[^\W\d]\w*', l.split('#')[0])]
-        qs = []
+        idents = [(li + 1, m.start(), m.end()) for li, l in enumerate(code.split('\n'))
+                  if not l.lstrip().startswith('#') for m in re.finditer(r'[^\W\d]\w*', l.split('#')[0])]
+        qs = [['get_names', None, None, {'all_scopes': True}]]
         for line, start, end in sorted(rng.sample(idents, min(n_pos, len(idents)))):
             qs += [['complete', line, end, {}], ['infer', line, start, {}], ['goto', line, start, {}],
                    ['help', line, start, {}], ['get_signatures', line, end, {}], ['get_context', line, start, {}],
                    ['get_references', line, start, {'scope': 'file'}]]
-        qs.append(['get_names', None, None, {'all_scopes': True}])
         out.append({'name': 'corpus/' + os.path.basename(path), 'dir': d, 'path': path, 'code': code, 'queries': qs,
                     'corpus': True})
     return out
@@ -191,12 +197,13 @@ def ask(script, query):
             res = list(script.search(a, **kw))
         else:
             res = getattr(script, kind)(a, b, **kw)
-    except Exception as e:      # an outcome like any other: it has to be the same everywhere, too
+        return digest(kind, res)
+    except Exception as e:      # an outcome like any other (run() decides which ones are admissible where)
         return 'EXC:' + type(e).__name__
-    return digest(kind, res)
 
 
 def worker(repo, payload_path, perturb):
+    """child process: perturb the heap, then run every session = the listed queries on ONE new Script"""
     keep = [__import__(m) for m in EXTRA_MODULES[:perturb % (len(EXTRA_MODULES) + 1)]]
     keep.append([object() for _ in range(perturb * 3571)])
     keep.append([bytearray(17 + (i * perturb) % 301) for i in range(perturb * 97)])
@@ -204,14 +211,31 @@ def worker(repo, payload_path, perturb):
     with open(payload_path) as f:
         payload = json.load(f)
     import jedi
-    jedi.settings.cache_directory = os.path.join(os.path.dirname(payload_path), 'cache_%d_%d' % (os.getpid(), perturb))
+    jedi.settings.cache_directory = os.path.join(os.path.dirname(payload_path), 'cache')
+    order = payload['sessions'][::-1] if perturb % 2 else payload['sessions']     # odd: sessions in reverse order
     out = []
-    for n, (si, session) in enumerate(payload['sessions'][::-1] if perturb % 2 else payload['sessions']):
+    for n, (si, session) in enumerate(order):
         src = payload['sources'][si]
         keep.append([[] for _ in range((n * perturb) % 29)])
         script = jedi.Script(src['code'], path=src['path'], project=jedi.Project(src['dir']))
         out.append([ask(script, src['queries'][qi]) for qi in session])
     print(json.dumps(out[::-1] if perturb % 2 else out))
+
+
+def sessions_of(src, rng, quick):
+    nq = len(src['queries'])
+    if src.get('corpus'):       # per sampled position: the 7 kinds twice on one Script (+ get_names around them)
+        return [[0] + list(range(i, i + 7)) * 2 + [0] for i in range(1, nq, 7)]
+    ss = [[i] for i in range(nq)]                                   # a fresh Script per query: the reference
+    real = nq - 3
+    if real <= 4:               # every order of the non-failing queries, then the first one again
+        ss += [list(p) + [p[0]] for p in itertools.permutations(range(real))][:24 if quick else 120]
+    for _ in range(1 if real <= 4 else (4 if quick else 24)):       # first, up to 8 others with repetitions, first again
+        first = rng.randrange(real)
+        ss.append([first] + [rng.randrange(nq) for _ in range(rng.randint(1, 8))] + [first])
+    if src['name'] == 'helper':                                     # 12 call sites of one function in a row, both ways
+        ss += [list(range(12)) + [0], list(range(11, -1, -1)) + [11], [0] * 9]
+    return ss
 
 
 def run(repo, seed, tier):
@@ -221,21 +245,10 @@ def run(repo, seed, tier):
     srcs = sources(root) + corpus(repo, rng, 5 if quick else 16, 6 if quick else 14)
     variants = [(0, 0), (1, 3), (12345, 8)] if quick else [(0, 0), (1, 3), (2, 8), (12345, 5), (1000 + seed % 1000, 14),
                                                           (4294967295, 1)]
-    # sessions: (source, [query indices]) = the queries asked, in this order, of ONE Script object
-    per_source = []
+    ngroups = 8
+    groups = [[] for _ in range(ngroups)]       # all sessions of one source go to one group of child processes
     for si, src in enumerate(srcs):
-        nq = len(src['queries'])
-        if src.get('corpus'):
-            ss = [list(range(nq)) + list(range(0, nq, 3))]
-        else:
-            ss = [[i] for i in range(nq)]                         # a fresh Script per query: the reference
-            for _ in range((4 if quick else 24) if nq > 6 else 1):  # first, up to 8 others with repetitions, first again
-                first = rng.randrange(nq - 3)
-                ss.append([first] + [rng.randrange(nq) for _ in range(rng.randint(1, 8))] + [first])
-            if src['name'] == 'helper':                           # 12 call sites of one function in a row, both ways
-                ss += [list(range(12)) + [0], list(range(11, -1, -1)) + [11], [0] * 9]
-        per_source.append([(si, s) for s in ss])
-    groups = [sum(per_source[g::8], []) for g in range(8)]
+        groups[si % ngroups] += [(si, s) for s in sessions_of(src, rng, quick)]
     here = os.path.dirname(os.path.dirname(os.path.abspath(__file__)))
 
     def child(task):
@@ -252,63 +265,83 @@ def run(repo, seed, tier):
         except Exception:
             raise RuntimeError('worker failed (group %d, hash seed %d): %s' % (g, hashseed, p.stderr[-800:]))
 
-    tasks = [(g, v) for g in range(8) if groups[g] for v in variants]
-    with ThreadPoolExecutor(max_workers=12) as ex:
+    tasks = [(g, v) for g in range(ngroups) for v in variants]
+    with ThreadPoolExecutor(max_workers=14) as ex:
         answers = dict(zip(tasks, ex.map(child, tasks)))
 
-    violations, counts, evaluations, nontrivial, samples = [], {}, 0, 0, []
+    violations, counts, samples, nontrivial = [], {}, [], set()
+    evaluations = 0
 
     def report(label, src, session, pos, detail):
         counts[label] = counts.get(label, 0) + 1
         if len(violations) < 50:
-            violations.append({'label': label, 'observed': detail[:600], 'input': 'source %s (%s), one Script asked %r; '
-                               'differing: #%d' % (src['name'], src['path'], [src['queries'][i] for i in session], pos)})
+            code = src['code'] if len(src['code']) < 700 else src['code'][:300] + ' ... ' + src['code'][-150:]
+            violations.append({'label': label, 'observed': detail[:700],
+                               'input': 'source %s = %r; ONE Script(code, path=%r, project=Project(%r)) asked in this order '
+                               '%r; differing answer: #%d' % (src['name'], code, src['path'], src['dir'],
+                                                              [src['queries'][i] for i in session], pos)})
 
-    for g in range(8):
+    def internal(r):            # an exception other than the documented ValueError for bad arguments
+        return isinstance(r, str) and r != 'EXC:ValueError'
+
+    for g in range(ngroups):
+        fresh_at = {(si, s[0]): k for k, (si, s) in enumerate(groups[g]) if len(s) == 1}
         for k, (si, session) in enumerate(groups[g]):
             src = srcs[si]
-            base = answers[(g, variants[0])][k]
+            got = {v: answers[(g, v)][k] for v in variants}
             evaluations += len(session) * len(variants)
-            nontrivial += sum(1 for r in base if r and isinstance(r, list))
-            if len(samples) < 3 and len(session) > 1 and k % 7 == 3:
+            base = got[variants[0]]
+            nontrivial.update((si, qi) for qi, r in zip(session, base) if r and isinstance(r, list))
+            if len(samples) < 3 and len(session) > 2 and k % 5 == 3:
                 samples.append({'source': src['name'], 'session': [src['queries'][i][:3] for i in session],
                                 'first answer': base[0][:2]})
+            # how far the session is comparable: in corpus files an internal exception is an artefact of the empty
+            # typeshed here and leaves the Script in an unspecified state; hand-written programs must not have any
+            # (except the RecursionError the 'chain' program is made for)
+            upto = {v: next((i + 1 for i, r in enumerate(got[v]) if internal(r)), len(session)) for v in variants}
+            if not src.get('corpus'):
+                odd = [(v, r) for v in variants for r in got[v] if internal(r)
+                       and not (src['name'] == 'chain' and r == 'EXC:RecursionError')]
+                if odd:
+                    raise RuntimeError('unexpected exception in hand-written program %s: %r' % (src['name'], odd[:3]))
+                upto = dict.fromkeys(variants, len(session))
             for v in variants[1:]:
-                other = answers[(g, v)][k]
-                for pos in range(len(session)):
-                    if other[pos] != base[pos]:
-                        report(LBL_PROC, src, session, pos, 'PYTHONHASHSEED=%d perturbation %d: %r\nPYTHONHASHSEED=%d '
-                               'perturbation %d: %r' % (variants[0] + (diff(base[pos], other[pos])[0],) + v
-                                                        + (diff(base[pos], other[pos])[1],)))
+                for pos in range(min(upto[v], upto[variants[0]])):
+                    if got[v][pos] != base[pos]:
+                        a, b = diff(base[pos], got[v][pos])
+                        report(LBL_PROC, src, session, pos, 'PYTHONHASHSEED=%d perturbation=%d: %s\nPYTHONHASHSEED=%d '
+                               'perturbation=%d: %s' % (variants[0] + (a,) + v + (b,)))
                         break
             for v in variants:
-                got = answers[(g, v)][k]
                 seen = {}
-                for pos, qi in enumerate(session):
-                    if qi in seen and got[pos] != got[seen[qi]]:
-                        report(LBL_AGAIN, src, session, pos, 'hash seed %d; #%d gave %r, #%d gave %r'
-                               % ((v[0], seen[qi]) + diff(got[seen[qi]], got[pos])[:1] + (pos,)
-                                  + diff(got[seen[qi]], got[pos])[1:]))
+                for pos, qi in enumerate(session[:upto[v]]):
+                    first = seen.setdefault(qi, pos)
+                    if got[v][pos] != got[v][first]:
+                        report(LBL_AGAIN, src, session, pos, 'PYTHONHASHSEED=%d; answer #%d: %s; answer #%d: %s'
+                               % ((v[0], first, diff(got[v][first], got[v][pos])[0], pos,
+                                   diff(got[v][first], got[v][pos])[1])))
                         break
-                    seen.setdefault(qi, pos)
-                    if not src.get('corpus') and len(session) > 1:
-                        fresh = answers[(g, v)][[s for _, s in groups[g]].index([qi])]
-                        if got[pos] != fresh[0]:
-                            report(LBL_FRESH, src, session, pos, 'hash seed %d; used Script: %r, fresh Script: %r'
-                                   % ((v[0],) + diff(got[pos], fresh[0])))
+                    if len(session) > 1 and (si, qi) in fresh_at:
+                        fresh = answers[(g, v)][fresh_at[(si, qi)]][0]
+                        if got[v][pos] != fresh:
+                            report(LBL_FRESH, src, session, pos, 'PYTHONHASHSEED=%d; this Script: %s; fresh Script: %s'
+                                   % ((v[0],) + diff(got[v][pos], fresh)))
                             break
+    nhand = sum(1 for s in srcs if not s.get('corpus'))
     return {'name': 'C16.seeds-heaps-histories', 'contract': 'C16.determinism',
-            'evaluations': evaluations, 'distinct_nontrivial': nontrivial,
+            'evaluations': evaluations, 'distinct_nontrivial': len(nontrivial),
             'rule': '%d hand-written programs (union of branch definitions, multiple inheritance, dict-key unions, 12 call '
-                    'sites of a decorated helper, star imports of one name from 3 modules, sys.path changed 4 times with '
-                    '4 same-named modules) and %d sampled files of test/completion at sampled identifiers; every query '
-                    'kind (complete, infer, goto, help, get_signatures, get_references, get_names, get_context, search, '
-                    '3 failing calls); %d child processes per group = (PYTHONHASHSEED, heap perturbation, session order) '
-                    '%r; ordered digests (name, type, path, line, column, description, completion text, signature string '
-                    'and index; goto/help as sets) must agree across processes; on one Script every repeated query must '
-                    'repeat its answer and equal that of a fresh Script (sequences first, <=8 others, first again; '
-                    '12 consecutive get_signatures)' % (len(srcs) - sum(1 for s in srcs if s.get('corpus')),
-                                                       sum(1 for s in srcs if s.get('corpus')), len(variants), variants),
+                    'sites of a nested helper, star imports of one name from 3 modules, sys.path changed 4 times with 4 '
+                    'same-named modules, 5 programs at the 300-inferences limit, a 200-assignment chain whose last name '
+                    'fails with RecursionError) and %d sampled files of test/completion at sampled identifiers; every '
+                    'query kind (complete, infer, goto, help, get_signatures, get_references, get_names, get_context, '
+                    'search, 3 calls failing with ValueError); %d child processes per source = (PYTHONHASHSEED, heap '
+                    'perturbation; odd = sessions in reverse order) %r. Oracles: ordered digests (name, type, path, line, '
+                    'column, description, completion text, signature string and index; goto/help as sets) agree across '
+                    'processes; on one Script a repeated query repeats its answer, and every answer equals that of a '
+                    'fresh Script in the same process (sessions: first, <=8 random others, first again; all orders of '
+                    'small programs; 12 consecutive get_signatures; per corpus position all kinds twice)'
+                    % (nhand, len(srcs) - nhand, len(variants), variants),
             'samples': samples, 'violations': violations, 'violation_counts': counts}
 
 
@@ -319,4 +352,4 @@ def diff(a, b):
             x, y = (a[i] if i < len(a) else None), (b[i] if i < len(b) else None)
             if x != y:
                 return ('row %d of %d: %r' % (i, len(a), x), 'row %d of %d: %r' % (i, len(b), y))
-    return (repr(a)[:250], repr(b)[:250])
+    return (repr(a)[:300], repr(b)[:300])
